@@ -567,3 +567,64 @@ Example C09_nonvacuous_super_order :
   allpos [2; 4] /\ Forall (fun d => 2 <= d) [2; 4] /\ allpos [6; 1; 8] /\
   tensor_order (steps_super [2; 4] [6; 1; 8]) ([2; 4] ++ [6; 1; 8]) = [2; 3; 4; 0; 1].
 Proof. repeat split; try reflexivity; repeat constructor; lia. Qed.
+
+(* 30. tensor_contract, _tensor_contract_dense: whatever positions the earlier
+       contractions removed, the pair handed to _tensor_contract_single points
+       at the two axes that carry the requested labels (both in range, and
+       distinct), for every list of pairs with distinct labels *)
+Theorem C09_contract_relabel_points_at_labels :
+  forall pairs axis,
+    NoDup axis -> NoDup (pair_labels pairs) -> (forall x, In x (pair_labels pairs) -> In x axis) ->
+    relabel_ok axis pairs (contract_relabel axis pairs).
+Proof. exact contract_relabel_ok. Qed.
+Print Assumptions C09_contract_relabel_points_at_labels.
+
+Example C09_nonvacuous_contract_relabel :
+  NoDup (pair_labels [(3, 1); (0, 4)]) /\ contract_relabel (seq 0 6) [(3, 1); (0, 4)] = [(3, 1); (0, 2)] /\
+  relabel_ok (seq 0 6) [(3, 1); (0, 4)] [(3, 1); (0, 2)].
+Proof.
+  split; [repeat constructor; simpl; intuition lia|]. split; [reflexivity|].
+  simpl. repeat split; lia.
+Qed.
+
+(* 31. ... and what is left after all contractions are the uncontracted axes in
+       their original order (so the final reshape by the contracted dims reads
+       them in the memory order of the input) *)
+Theorem C09_contract_leaves_other_axes_in_order :
+  forall pairs axis, NoDup axis ->
+    final_axes axis pairs = filter (fun x => negb (memb x (pair_labels pairs))) axis.
+Proof. exact final_axes_spec. Qed.
+Print Assumptions C09_contract_leaves_other_axes_in_order.
+
+Example C09_nonvacuous_contract_final :
+  NoDup (seq 0 6) /\ final_axes (seq 0 6) [(3, 1); (0, 4)] = [2; 5].
+Proof. split; [apply seq_NoDup|reflexivity]. Qed.
+
+(* 32. tensor_contract for every Qobj type (superoperators and operator-kets
+       included): the dims labels of the pairs are sent to the tensor axes that
+       carry them (mo[tp[x]] = x), every step contracts the positions that
+       currently hold those axes, and the remaining tensor axes keep the memory
+       order of the input *)
+Theorem C09_tensor_contract_positions :
+  forall stl str fl fr pairs,
+    length stl = length fl -> length str = length fr ->
+    NoDup (pair_labels pairs) ->
+    (forall x, In x (pair_labels pairs) -> x < length (fl ++ fr)) ->
+    let n := length (fl ++ fr) in
+    let mo := memory_order stl str fl fr in
+    let tp := get_tensor_perm stl str fl fr in
+    let tpairs := map (fun p => (nth (fst p) tp 0, nth (snd p) tp 0)) pairs in
+    (forall x, In x (pair_labels pairs) -> nth x tp 0 < n /\ nth (nth x tp 0) mo 0 = x) /\
+    relabel_ok (seq 0 n) tpairs (contract_relabel (seq 0 n) tpairs) /\
+    final_axes (seq 0 n) tpairs
+      = filter (fun a => negb (memb a (map (fun x => nth x tp 0) (pair_labels pairs)))) (seq 0 n).
+Proof. exact tensor_contract_positions. Qed.
+Print Assumptions C09_tensor_contract_positions.
+
+Example C09_nonvacuous_tensor_contract_super :
+  (* operator-ket [[[2; 3]; [2; 3]]; [1]]: labels l0 l1 r0 r1 | 1, memory order r0 r1 l0 l1 *)
+  get_tensor_perm (steps_super [2; 3] [2; 3]) (steps [1]) [2; 3; 2; 3] [1] = [2; 3; 0; 1; 4] /\
+  NoDup (pair_labels [(3, 1)]) /\
+  contract_relabel (seq 0 5) [(1, 3)] = [(1, 3)] /\
+  final_axes (seq 0 5) [(1, 3)] = [0; 2; 4].
+Proof. repeat split; try reflexivity. repeat constructor; simpl; intuition lia. Qed.
